@@ -301,7 +301,7 @@ def roundtrip_obligation(prog, enums, structs, layout, with_edns, sym_flags=Fals
     getd = find(prog, "get_dns", 1, "parse")
     if len(newp) != 1:
         raise Unsupported("PktParser::new not found")
-    ex = Exec(prog, S, enums, max_unroll=24)
+    ex = Exec(prog, S, enums, max_unroll=24, timeout_s=150, max_paths=3000)
 
     def run(e):
         pkt = mk_named_msg(e, structs, layout, with_edns, sym_flags)
@@ -313,6 +313,8 @@ def roundtrip_obligation(prog, enums, structs, layout, with_edns, sym_flags=Fals
     paths = ex.explore(run)
     failed, kinds = [], {}
     for outcome, val, pc, env in paths:
+        if len({f["description"] for f in failed}) >= 3 and len(failed) >= 6:
+            break       # enough distinct violated claims to report; the remaining paths add nothing to the verdict
         pkt = env.get("pkt")
         claims = []
         if outcome == "panic":
